@@ -209,7 +209,7 @@ HLcreate(int32 file_id, uint16 tag, uint16 ref, int32 block_length, int32 number
 
     /* clear error stack and validate file record id */
     HEclear();
-    file_rec = HAatom_object(file_id);
+    file_rec = HIfid2rec(file_id);
 
     /* check args and create special tag */
     if (BADFREC(file_rec) || block_length < 0 || number_blocks < 0 || SPECIALTAG(tag) ||
@@ -404,11 +404,11 @@ HLconvert(int32 aid, int32 block_length, int32 number_blocks)
         HGOTO_ERROR(DFE_ARGS, FAIL);
 
     /* get the access_rec pointer */
-    if ((access_rec = HAatom_object(aid)) == NULL)
+    if ((access_rec = HIaid2rec(aid)) == NULL)
         HGOTO_ERROR(DFE_ARGS, FAIL);
 
     file_id  = access_rec->file_id;
-    file_rec = HAatom_object(file_id);
+    file_rec = HIfid2rec(file_id);
     if (BADFREC(file_rec))
         HGOTO_ERROR(DFE_ARGS, FAIL);
 
@@ -561,7 +561,7 @@ HDinqblockinfo(int32 aid, int32 *length, int32 *first_length, int32 *block_lengt
     int       ret_value = SUCCEED;
 
     HEclear();
-    if ((arec = HAatom_object(aid)) == (accrec_t *)NULL)
+    if ((arec = HIaid2rec(aid)) == (accrec_t *)NULL)
         HGOTO_ERROR(DFE_BADAID, FAIL);
 
     if (arec->special != SPECIAL_LINKED)
@@ -609,7 +609,7 @@ HLIstaccess(accrec_t *access_rec, int16 acc_mode)
     int32       ret_value = SUCCEED;
 
     /* validate file record id */
-    file_rec = HAatom_object(access_rec->file_id);
+    file_rec = HIfid2rec(access_rec->file_id);
     if (BADFREC(file_rec) || !(file_rec->access & acc_mode))
         HGOTO_ERROR(DFE_ARGS, FAIL);
 
@@ -1225,7 +1225,7 @@ HLPwrite(accrec_t *access_rec, int32 length, const void *datap)
     int32 ret_value      = SUCCEED;
 
     /* convert file id to file record */
-    file_rec = HAatom_object(access_rec->file_id);
+    file_rec = HIfid2rec(access_rec->file_id);
 
     /* validate length and file records */
     if (length <= 0)
@@ -1587,7 +1587,7 @@ HLPendaccess(accrec_t *access_rec)
         HGOTO_ERROR(DFE_ARGS, FAIL);
 
     /* convert file id to file record */
-    file_rec = HAatom_object(access_rec->file_id);
+    file_rec = HIfid2rec(access_rec->file_id);
     if (BADFREC(file_rec))
         HGOTO_ERROR(DFE_ARGS, FAIL);
 
@@ -1750,7 +1750,7 @@ HLsetblockinfo(int32 aid,        /* access record id */
         HGOTO_ERROR(DFE_ARGS, FAIL);
 
     /* get the access record */
-    if ((access_rec = HAatom_object(aid)) == NULL)
+    if ((access_rec = HIaid2rec(aid)) == NULL)
         HGOTO_ERROR(DFE_ARGS, FAIL);
 
     /* If this element is already stored as linked-block, do not allow
@@ -1807,7 +1807,7 @@ HLgetblockinfo(int32  aid,        /* access record id */
     HEclear();
 
     /* get the access record */
-    if ((access_rec = HAatom_object(aid)) == NULL)
+    if ((access_rec = HIaid2rec(aid)) == NULL)
         HGOTO_ERROR(DFE_ARGS, FAIL);
 
     /* get the linked-block size and the number of linked-blocks if requested */
